@@ -1431,6 +1431,20 @@ class Exec:
       base_vals = dict(bound)
       n = z3.Int(ctx.sym('n_' + callee.split('.')[-1]))
       ctx.assume(n >= 0)
+      es = None
+      if isinstance(eshape, TSet):
+        es = z3.SetSort(eshape.esort)
+      elif isinstance(eshape, TInt):
+        es = z3.IntSort()
+      whole = None
+      if es is not None:
+        whole = z3.Const(ctx.sym('ys_' + callee.split('.')[-1]),
+                         z3.SetSort(es))
+        vals3 = dict(base_vals)
+        vals3['yielded'] = VSet(whole, es)
+        ns3 = NS(ctx, vals3, heap=None, old=old_ns)
+        for cl in contract.gen_post:
+          ctx.assume(cl.fn(ns3))
 
       def elem(c, k):
         e = eshape.fresh(c, 'y_' + callee.split('.')[-1])
@@ -1439,9 +1453,15 @@ class Exec:
         ns2 = NS(c, vals2, heap=None, old=old_ns)
         for cl in yields:
           c.assume(cl.fn(ns2))
+        if whole is not None:
+          c.assume(z3.IsMember(elem_term(e, es), whole))
         return e
 
-      return loopmod.VIter(n, elem)
+      it = loopmod.VIter(n, elem, visited_sort=es, distinct=False,
+                         whole=whole,
+                         to_term=(lambda v: elem_term(v, es)) if es is not None
+                         else None)
+      return it
     if mkey is not None:
       writes = {k: v for k, v in ((
           (oid, f), v) for oid, rec in ctx.objects.items()
@@ -1831,6 +1851,7 @@ class Exec:
         self.ctx.assume(z3.And(k >= src.lo, k < src.hi))
         gen.on_yield(self, VInt(k), node)
         raise PathEnd('yield-from element')
+      gen.add_range(src.lo, src.hi)     # the other path: all of them yielded
       return
     v = self.eval(node.value, env) if node.value is not None else NONE
     gen.on_yield(self, v, node)
@@ -1860,6 +1881,12 @@ class Exec:
           out.append(part)
       return tuple(out)
     cands = [l for l in specs_ if norm(l.key) == norm(key)]
+    if not cands and isinstance(node, ast.For):
+      # the iterated expression was edited: fall back to the loop variable,
+      # so that the invariant is still checked against the changed loop
+      cands = [l for l in specs_ if norm(l.key)[0] == norm(key)[0]]
+    if not cands and isinstance(node, ast.While):
+      cands = [l for l in specs_ if l.key[0] == 'while']
     if not cands:
       return None
     if len(cands) == 1:
